@@ -164,3 +164,20 @@ pub fn set_current_world(w: Option<World>) {
 pub fn current_world() -> World {
     CURRENT_WORLD.with(|c| c.borrow().clone().expect("no current world on this thread"))
 }
+
+/// What the stub behind a module recorder answers to an accepted message: a function of the message
+/// alone (so the reference model predicts it): nothing, an event, data, or both.
+pub fn stub_response(kind: &str, payload: &str) -> (Vec<Ev>, Option<Vec<u8>>) {
+    let mut h = crate::prng::Fnv::new();
+    h.write_str(kind);
+    h.write_str(payload);
+    let short: String = payload.chars().take(24).collect();
+    let ev = Ev { ty: format!("stub-{}", kind), attrs: vec![("payload".to_string(), short.clone())] };
+    let data = format!("{}:{}", kind, short).into_bytes();
+    match h.finish() % 4 {
+        0 => (vec![], None),
+        1 => (vec![ev], None),
+        2 => (vec![], Some(data)),
+        _ => (vec![ev], Some(data)),
+    }
+}
